@@ -200,22 +200,22 @@ async def run_script(st, backend, uni, script, log_errors=None):
                 if log_errors is not None:
                     log_errors.append((sym, reason))
             lines.append({"a": "Submit", "id": sym, "ok": ok, "post": await dump_ids(st, backend, uni),
-                          "wq": wq_abstract(st, uni), "bc": [uni.sym_id(i) for i in rec.take()], "_reason": reason})
+                          "q": wq_abstract(st, uni), "bc": [uni.sym_id(i) for i in rec.take()], "_reason": reason})
         elif kind == "writer":
             if backend == "lmdb" and st._verif_gate.items:
                 writer_step(st, 1)
-                lines.append({"a": "Writer", "post": await dump_ids(st, backend, uni), "wq": wq_abstract(st, uni), "bc": []})
+                lines.append({"a": "Writer", "post": await dump_ids(st, backend, uni), "q": wq_abstract(st, uni), "bc": []})
         elif kind == "drain":
             while backend == "lmdb" and st._verif_gate.items:
                 writer_step(st, 1)
-                lines.append({"a": "Writer", "post": await dump_ids(st, backend, uni), "wq": wq_abstract(st, uni), "bc": []})
+                lines.append({"a": "Writer", "post": await dump_ids(st, backend, uni), "q": wq_abstract(st, uni), "bc": []})
         elif kind == "gc":
             set_clock(backend, op[1])
             await run_gc(st, backend)
-            lines.append({"a": "Gc", "T": op[1], "post": await dump_ids(st, backend, uni), "wq": wq_abstract(st, uni), "bc": []})
+            lines.append({"a": "Gc", "T": op[1], "post": await dump_ids(st, backend, uni), "q": wq_abstract(st, uni), "bc": []})
         elif kind == "delete":
             await st.delete_event(uni.conc_value(op[1]))
-            lines.append({"a": "Delete", "id": op[1], "post": await dump_ids(st, backend, uni), "wq": wq_abstract(st, uni), "bc": []})
+            lines.append({"a": "Delete", "id": op[1], "post": await dump_ids(st, backend, uni), "q": wq_abstract(st, uni), "bc": []})
         elif kind == "get":
             try:
                 ev = await st.get_event(uni.conc_value(op[1]))
